@@ -329,7 +329,12 @@ func (s *Server) serveConn(c net.Conn, opts *ServeConnOpts, newf func(*serverCon
 	if conf.CountError != nil {
 		fr.countError = conf.CountError
 	}
-	fr.ReadMetaHeaders = hpack.NewDecoder(conf.MaxDecoderHeaderTableSize, nil)
+	// Until the client has received and applied our SETTINGS it encodes
+	// with the protocol's default table size, so the decoder must accept
+	// that much even if a smaller SETTINGS_HEADER_TABLE_SIZE is configured.
+	// The client shrinks the table itself, with a dynamic table size
+	// update, once it has processed the setting.
+	fr.ReadMetaHeaders = hpack.NewDecoder(max(conf.MaxDecoderHeaderTableSize, initialHeaderTableSize), nil)
 	fr.MaxHeaderListSize = sc.maxHeaderListSize()
 	fr.SetMaxReadFrameSize(conf.MaxReadFrameSize)
 	sc.framer = fr
